@@ -354,6 +354,8 @@ def stage_params(ctx, exe, runner, quick):
             viol = ('options:isotropy-ignored', 'anisotropy not authorised but the parameter list holds anisotropy ranges / angles')
         elif not opts_in[3] and any(e == E_ANGLE for (_, _, e, iv, _) in dec):
             viol = ('options:locked-rotation-ignored', 'rotation not authorised but the parameter list holds angles')
+        elif iopts[4] and len(set(ic for (_, ic, e, iv, _) in dec if e == E_ANGLE)) > 1:
+            viol = ('options:samerot-several-rotations', 'lock_samerot is on but angles are parameters of several structures: %s' % sorted(set(ic for (_, ic, e, iv, _) in dec if e == E_ANGLE)))
         if viol is None:
             # user items as the library holds them after st_alter_model_optvar (sill values replaced by their roots)
             litems = ii[10]
@@ -465,50 +467,135 @@ def stage_foxleg(ctx, exe, runner, quick):
             ctx.ndis += 1
             ctx.violation('model-drift:st_check_param', 'model and impl disagree, impl result is inside the bounds', {'case': sx_str(c), 'impl': sx_str(ii), 'model': sx_str(mi)}, found_input=False)
 
-def stage_ranges(ctx, exe, runner, quick):
-    """st_model_auto_strmod_define: the ranges written into each structure"""
+def gen_parid_block(rng, ic, t, ndim, nvar, aniso, goulard_off, angles_allowed):
+    """identifiers of one structure in the order st_parid_alloc produces them; some directions locked (no RANGE of their own)"""
+    ps = []; vals = []
+    hasrange = 0 if t == 0 else -1 if t in (11, 12) else 1
+    hasparam = t in (6, 7, 10, 12, 19)
+    if goulard_off:
+        for a in range(nvar):
+            for b in range(a + 1): ps.append(parid_enc(0, ic, E_SILL, a, b)); vals.append(Fraction(rng.randint(-12, 12), 4))
+    if hasparam: ps.append(parid_enc(0, ic, E_PARAM, 0, 0)); vals.append(Fraction(rng.randint(4, 12), 8))
+    if hasrange > 0: ps.append(parid_enc(0, ic, E_RANGE, 0, 0)); vals.append(Fraction(rng.randint(1, 80), 4))
+    if hasrange != 0 and aniso and ndim > 1:
+        ranks = [1] if ndim == 2 else rng.choice([[1, 2], [1], [2], []])      # 3-D: lock_no3d keeps [1], lock_iso2d keeps [2]
+        for k in ranks: ps.append(parid_enc(0, ic, E_RANGE, k, 0)); vals.append(Fraction(rng.randint(1, 80), 4))
+        if angles_allowed and rng.random() < .6:
+            for k in ([0] if ndim == 2 or rng.random() < .5 else list(range(ndim))):
+                ps.append(parid_enc(0, ic, E_ANGLE, k, 0)); vals.append(Fraction(rng.randint(-90, 90)))
+    return ps, vals
+
+def stage_map(ctx, exe, runner, quick):
+    """st_model_auto_strmod_define: ranges (locked directions, isotropy), angles, third parameter, sills from AIC parameters"""
     rng = ctx.rng
-    N = 60 if quick else 800
+    N = 120 if quick else 1500
     icases = []
     for i in range(N):
-        ndim = rng.choice([1, 2, 2, 3]); aniso = rng.random() < .6 and ndim > 1
-        ncov = rng.randint(1, 3); types = [rng.choice([0, 1, 2, 3, 11]) for _ in range(ncov)]
-        parids = []; vals = []
+        ndim = rng.choice([1, 2, 2, 3, 3]); aniso = rng.random() < .7 and ndim > 1
+        nvar = rng.choice([1, 1, 2, 3]); goulard_off = rng.random() < .4; samerot = aniso and rng.random() < .3
+        ncov = rng.randint(1, 3); types = [rng.choice([0, 1, 2, 3, 10, 11]) for _ in range(ncov)]
+        parids = []; vals = []; rotated = False
         for ic, t in enumerate(types):
-            if t == 0: continue
-            if t != 11: parids.append(parid_enc(0, ic, E_RANGE, 0, 0)); vals.append(Fraction(rng.randint(1, 80), 4))
-            if aniso:
-                for idim in range(1, ndim):
-                    if rng.random() < .8: parids.append(parid_enc(0, ic, E_RANGE, idim, 0)); vals.append(Fraction(rng.randint(1, 80), 4))
-                if rng.random() < .5: parids.append(parid_enc(0, ic, E_ANGLE, 0, 0)); vals.append(Fraction(rng.randint(-90, 90)))
-        for ic in range(ncov):
-            if types[ic] == 0: continue
-            icases.append([6, ndim, types, aniso, parids, [dy(v) for v in vals], ic])
-        ctx.dist('ranges_ndim%d_%s' % (ndim, 'aniso' if aniso else 'iso'))
+            ps, vs = gen_parid_block(rng, ic, t, ndim, nvar, aniso, goulard_off, not (samerot and rotated))
+            if any(parid_dec(q)[2] == E_ANGLE for q in ps): rotated = True
+            parids += ps; vals += vs
+        icases.append([6, ndim, nvar, types, aniso, samerot, parids, [dy(v) for v in vals], dy(Fraction(rng.choice([100, 64, 7])))])
+        ctx.dist('map_ndim%d_nvar%d_%s%s%s' % (ndim, nvar, 'aniso' if aniso else 'iso', '_aic' if goulard_off else '', '_samerot' if samerot else ''))
     def mk6(c, ii):
-        ic = c[6]
-        return [6, c[1], ic, [list(parid_dec(v)) for v in c[4]], c[5], ii[0][ic]]
-    res = both(ctx, exe, runner, 'ranges', icases, mk6)
+        if len(ii) != 3: return None
+        return [6, c[2], c[4], c[5], ii[2], [list(parid_dec(v)) for v in c[6]], c[7], ii[0]]
+    res = both(ctx, exe, runner, 'map', icases, mk6)
+    site = 'st_model_auto_strmod_define'
+    tol = Fraction(1, 10**9)
+    eq = lambda a, b: a is not None and b is not None and abs(a - b) <= tol * (1 + abs(b))
     for c, ii, mc, mi in res:
-        ctx.count(sx_str(c))
         if crashed(ii):
-            ctx.found_input = True; ctx.violation('crash:st_model_auto_strmod_define', 'no answer', {'case': sx_str(c)}); continue
-        ic = c[6]; aniso = c[3]
-        got = [undy(x) for x in ii[1][ic]]; exp = [unq(x) for x in mi]
-        if not aniso: exp = [exp[0]] * len(exp)
-        vals = [undy(v) for v, pid in zip(c[5], c[4]) if parid_dec(pid)[1] == ic and parid_dec(pid)[2] == E_RANGE]
-        viol = None
-        if any(g is None or g <= 0 for g in got) and all(v > 0 for v in vals) and all(undy(x) is not None and undy(x) > 0 for x in ii[0][ic]):
-            viol = ('st_model_auto_strmod_define:non-positive-range', 'positive range parameters give ranges %s' % [fl(g) for g in got])
-        elif not aniso and len(set(got)) > 1:
-            viol = ('st_model_auto_strmod_define:isotropy-not-applied', 'anisotropy not authorised but ranges are %s' % [fl(g) for g in got])
-        agree = len(got) == len(exp) and all(close_o(a, b) for a, b in zip(got, exp))
+            ctx.count(sx_str(c)); ctx.found_input = True; ctx.violation('crash:' + site, 'no answer', {'case': sx_str(c)}); continue
+        if mc is None:
+            ctx.cov['tie_excluded'] += 1; ctx.count(None, False); continue          # a structure that does not exist in this space
+        ctx.count(sx_str(c))
+        ndim, nvar, types, aniso, samerot, parids = c[1], c[2], c[3], c[4], c[5], [parid_dec(v) for v in c[6]]
+        vals = [undy(v) for v in c[7]]
+        before, after, chars = ii
+        viol = None; agree = len(after) == len(mi)
+        first_ranged = next((k for k, ch in enumerate(chars) if ch[0] != 0), None)
+        for ic, (st, ch) in enumerate(zip(after, chars)):
+            R = [undy(x) for x in st[0]]; A = [undy(x) for x in st[1]]; P = undy(st[2]); S = unmat(st[3])
+            own = [(pd, v) for pd, v in zip(parids, vals) if pd[1] == ic]
+            rng_own = {pd[3]: v for pd, v in own if pd[2] == E_RANGE}
+            # ---- the rules the theorems state, evaluated on what the library wrote
+            if own and ch[0] != 0:
+                if aniso:
+                    for k in range(ndim):
+                        if k in rng_own and not eq(R[k], rng_own[k]):
+                            viol = ('range-parameter-not-written', 'structure %d: range[%d] = %s, parameter %s' % (ic, k, fl(R[k]), fl(rng_own[k]))); break
+                        if k not in rng_own and 0 in rng_own and not eq(R[k], rng_own[0]):
+                            viol = ('locked-direction-differs-from-first-range', 'structure %d: direction %d has no range parameter of its own, range[%d] = %s, range[0] parameter = %s'
+                                    % (ic, k, k, fl(R[k]), fl(rng_own[0]))); break
+                elif any(not eq(x, R[0]) for x in R) or (0 in rng_own and rng_own[0] > Fraction(1, 10**10) and not eq(R[0], rng_own[0])):
+                    viol = ('isotropy-not-applied', 'structure %d: anisotropy not authorised, ranges %s, range parameter %s' % (ic, [fl(x) for x in R], fl(rng_own.get(0))))
+                if viol is None and any(x is None or x <= 0 for x in R) and all(v > 0 for v in rng_own.values()):
+                    viol = ('range-not-positive', 'structure %d: ranges %s from positive parameters' % (ic, [fl(x) for x in R]))
+                ang_own = {pd[3]: v for pd, v in own if pd[2] == E_ANGLE}
+                if viol is None and ndim == 2 and 0 in ang_own and not samerot and not ang_eq(A[0], ang_own[0]):
+                    viol = ('angle-parameter-not-written', 'structure %d: angle %s, parameter %s' % (ic, fl(A[0]), fl(ang_own[0])))
+            par_own = [v for pd, v in own if pd[2] == E_PARAM]
+            if viol is None and par_own and ch[1] and not eq(P, par_own[-1]):
+                viol = ('third-parameter-not-written', 'structure %d: third parameter %s, parameter value %s' % (ic, fl(P), fl(par_own[-1])))
+            if viol is None and any(pd[2] == E_SILL for pd, _ in own) and (any(v is None for r in S for v in r) or sym_defect(S) != 0 or not is_psd_exact(S)):
+                viol = ('aic-sill-not-psd', 'structure %d: sill matrix %s built from the AIC parameters is not symmetric PSD' % (ic, [[fl(x) for x in r] for r in S]))
+            if viol is None and samerot and ndim == 2 and first_ranged is not None and ic >= 1 and ic != first_ranged and ch[0] != 0:
+                if not ang_eq(A[0], undy(after[first_ranged][1][0])):
+                    viol = ('samerot-angles-differ', 'lock_samerot: structure %d has angle %s, structure %d has %s' % (ic, fl(A[0]), first_ranged, fl(undy(after[first_ranged][1][0]))))
+            if viol: break
+            # ---- model
+            if ic < len(mi):
+                mR = [unq(x) for x in mi[ic][0]]; mA = [unq(x) for x in mi[ic][1]]; mP = unq(mi[ic][2]); mS = unmat(mi[ic][3], unq)
+                if not (len(R) == len(mR) and all(close_o(a, b) for a, b in zip(R, mR)) and close_o(P, mP) and close_mat(S, mS)): agree = False
+                if ndim == 2 and A[0] is not None and not ang_eq(A[0], mA[0]): agree = False
         if viol:
-            ctx.ndis += 1; ctx.found_input = True; ctx.violation(viol[0], viol[1], {'case': sx_str(c), 'impl': sx_str(ii), 'model': sx_str(mi)})
+            ctx.ndis += 1; ctx.found_input = True
+            ctx.violation('impl-vs-spec:%s:%s' % (site, viol[0]), viol[1], {'case': sx_str(c), 'impl': sx_str(ii), 'model': sx_str(mi)})
         elif not agree:
             ctx.ndis += 1
-            ctx.violation('model-drift:st_model_auto_strmod_define:ranges', 'ranges written %s, model %s' % ([fl(g) for g in got], [fl(g) for g in exp]),
+            ctx.violation('model-drift:' + site, 'the Model written differs from coq/C17/ModelMap.v although every stated rule (written / locked / isotropic ranges, angles, third parameter, PSD sills) holds',
                           {'case': sx_str(c), 'impl': sx_str(ii), 'model': sx_str(mi)}, found_input=False)
+
+def stage_alpha(ctx, exe, runner, quick):
+    """constant sill: st_updateAlphaDiag / AModelOptimSills::_updateAlphaDiag"""
+    rng = ctx.rng
+    N = 60 if quick else 600
+    icases = []; aux = []
+    for i in range(N):
+        ncova = rng.randint(1, 3); nvar = rng.randint(1, 3); ivar0 = rng.randrange(nvar); icov0 = rng.randrange(ncova)
+        alpha = []
+        for ic in range(ncova):
+            M = gen_sym(rng, nvar, 'psd'); alpha.append(M)
+        xr = [Fraction(rng.randint(1, 24), 8) for _ in range(nvar)]
+        cons = [Fraction(rng.randint(1, 40), 4) if rng.random() < .9 or k == ivar0 else None for k in range(nvar)]
+        srm = sum(alpha[ic][ivar0][ivar0] for ic in range(ncova) if ic != icov0)
+        icases.append([7, i % 2, ncova, nvar, ivar0, icov0, [dy(x) for x in xr], [dmat(M) for M in alpha], [dy(x) for x in cons]])
+        aux.append((cons[ivar0], xr[ivar0], srm))
+    k = iter(range(N))
+    res = both(ctx, exe, runner, 'alpha', icases, lambda c, ii: [9] + [dy(x) for x in aux[next(k)]])
+    for (c, ii, mc, mi), (cons, xr, srm) in zip(res, aux):
+        fn = 'AModelOptimSills::_updateAlphaDiag' if c[1] == 0 else 'st_updateAlphaDiag'
+        ctx.count(sx_str(c))
+        if crashed(ii):
+            ctx.found_input = True; ctx.violation('crash:' + fn, 'no answer', {'case': sx_str(c)}); continue
+        got = undy(ii[0]); exp = unq(mi[0])
+        viol = None
+        if got is None or got < 0: viol = ('negative-term', 'new diagonal term %s' % fl(got))
+        else:
+            tot = xr * xr * (srm + got); want = max(cons, xr * xr * srm)
+            if abs(tot - want) > Fraction(1, 10**9) * (1 + abs(want)):
+                viol = ('sum-of-sills-not-constant-sill', 'xr^2 (sum of alpha) = %s, constant sill %s, other structures alone %s' % (fl(tot), fl(cons), fl(xr * xr * srm)))
+        if viol:
+            ctx.ndis += 1; ctx.found_input = True
+            ctx.violation('impl-vs-spec:%s:%s' % (fn, viol[0]), viol[1], {'case': sx_str(c), 'impl': sx_str(ii), 'model': sx_str(mi)})
+        elif not close_o(got, exp):
+            ctx.ndis += 1
+            ctx.violation('model-drift:' + fn, 'impl %s, model %s' % (fl(got), fl(exp)), {'case': sx_str(c), 'impl': sx_str(ii), 'model': sx_str(mi)}, found_input=False)
 
 # ----------------------------------------------------------------------------- stage: unconstrained Goulard loop (needs the hook: eigen-pairs of every step)
 def stage_goulard(ctx, exe, runner, quick):
@@ -563,6 +650,50 @@ def stage_goulard(ctx, exe, runner, quick):
         nvar, ncova, maxiter = c[2], c[3], c[5]
         S = [unmat(m) for m in sills]
         spec_ok = status != 0 or all(all(v is not None for r in M for v in r) and sym_defect(M) == 0 and is_psd_exact(M) for M in S)
+        # C17_goulard_step_decrease_partial on impl: a run in which nothing was truncated (every recorded step reports no negative
+        # eigenvalue) cannot end with a criterion above the initial one (sills = identity), computed here from the inputs
+        if status == 0 and rec and records and all(int(undy(r[5])) == 1 for r in records) and spec_ok and undy(crit) is not None:
+            pairs = [(a, b) for a in range(nvar) for b in range(a + 1)]
+            crit0 = Fraction(0)
+            for ij, (a, b) in enumerate(pairs):
+                for ip in range(c[4]):
+                    if c[7][ij][ip] == []: continue
+                    t = undy(c[8][ij][ip]) - sum(undy(c[10][ic][a][b]) * undy(c[9][ic][ij][ip]) for ic in range(ncova))
+                    crit0 += (1 if a == b else 2) * undy(c[7][ij][ip]) * t * t
+            ctx.dist('goulard_run_without_truncation')
+            if undy(crit) > crit0 * (1 + Fraction(1, 10**9)) + Fraction(1, 10**12):
+                ctx.ndis += 1; ctx.found_input = True
+                ctx.violation('impl-vs-spec:%s:criterion-increased-without-truncation' % fn, 'criterion %s after %d steps without truncation, %s before' % (fl(undy(crit)), len(records), fl(crit0)),
+                              {'case': sx_str(c), 'impl': sx_str(ii)[:3000]})
+        # C17_goulard_entry_minimiser on impl: the matrix the step hands to the eigen-solver (recorded by the hook) must minimise,
+        # term by term, the weighted sum of squares given the sills of the other structures at that moment
+        if status == 0 and rec and records and spec_ok:
+            pairs = [(a, b) for a in range(nvar) for b in range(a + 1)]
+            W = [[None if c[7][ij][ip] == [] else undy(c[7][ij][ip]) for ip in range(c[4])] for ij in range(len(pairs))]
+            GG = [[undy(x) for x in r] for r in c[8]]; GE = [[[undy(x) for x in r] for r in m] for m in c[9]]
+            cur = [unmat(m) for m in c[10]]; bad = None
+            for r in records[:3 * ncova]:
+                nv = int(undy(r[2])); icov = int(undy(r[3])); sin = r[6:6 + nv * nv]; sout = r[6 + 2 * nv * nv + nv:]
+                if any(x == [] for x in sin + sout): break
+                for ij, (a, b) in enumerate(pairs):
+                    ips = [ip for ip in range(c[4]) if W[ij][ip] is not None]
+                    res = [GG[ij][ip] - sum(cur[ic][a][b] * GE[ic][ij][ip] for ic in range(ncova) if ic != icov) for ip in ips]
+                    g = [GE[icov][ij][ip] for ip in ips]; w = [W[ij][ip] for ip in ips]
+                    S2 = sum(wi * gi * gi for wi, gi in zip(w, g))
+                    if S2 <= 0: continue
+                    sopt = sum(wi * gi * ri for wi, gi, ri in zip(w, g, res)) / S2
+                    q = lambda x: sum(wi * (ri - x * gi) ** 2 for wi, gi, ri in zip(w, g, res))
+                    got = undy(sin[a * nv + b])
+                    if q(got) > q(sopt) * (1 + Fraction(1, 10**8)) + Fraction(1, 10**10) * (1 + sum(wi * ri * ri for wi, ri in zip(w, res))):
+                        bad = (icov, a, b, got, sopt); break
+                if bad: break
+                cur[icov] = [[undy(sout[i * nv + j]) for j in range(nv)] for i in range(nv)]
+            if bad:
+                ctx.ndis += 1; ctx.found_input = True
+                ctx.violation('impl-vs-spec:%s:update-is-not-the-least-squares-minimiser' % fn,
+                              'structure %d, variables (%d,%d): term %s written, the weighted sum of squares is smaller at %s' % (bad[0], bad[1], bad[2], fl(bad[3]), fl(bad[4])),
+                              {'case': sx_str(c), 'impl': sx_str(ii)[:3000]})
+                continue
         if mi is None:
             if not spec_ok:
                 ctx.ndis += 1; ctx.found_input = True
@@ -848,6 +979,18 @@ def check_fit_result(ctx, c, ii):
                               it[1] in fin and fin[it[1]] is st] for j, b in enumerate(ref[:ndim])]
             if st['hasrange'] != 0 and not all(any(ang_eq(a, b) for b in bs) for a, bs in zip(st['angles'][:ndim], ok_vals)):
                 out.append(('%s:rotation-locked:angles-changed' % PATHS[path], 'rotation locked, structure %d has angles %s, reference %s' % (k, [fl(x) for x in st['angles']], [fl(x) for x in ref]))); break
+    # P4b lock rules (C17_ranges_locked + C17_ranges_alloc_shape): a direction whose range is not a parameter of the fit
+    #      (isotropy in the plane: lock_iso2d, no vertical direction: lock_no3d, a single direction, ...) carries the range of rank 0
+    if path in (0, 1) and ndim > 1:
+        ranks, _ = inferred_params(c)
+        for k, st in enumerate(S):
+            r = st['ranges'][:ndim]
+            if st['hasrange'] <= 0 or any(x is None for x in r): continue
+            badk = [j for j in range(1, ndim) if j not in ranks and abs(r[j] - r[0]) > 1e-9 * abs(r[0])]
+            if badk:
+                out.append(('impl-vs-spec:%s:locked-direction-differs-from-first-range' % PATHS[path],
+                            'structure %d (type %d): ranges %s; the ranges of rank %s are not parameters of this fit (inferred ranks: %s) and must equal the range of rank 0'
+                            % (k, st['type'], [fl(x) for x in r], badk, sorted(ranks)))); break
     # P5 save / reload / krige
     saved, reloaded, same, krig, nfinite, minstd = post
     if not out and not constant_data(c):
@@ -1042,6 +1185,20 @@ def directed_fit_cases():
     add(2, 2, p2, dirs2(2), [0, 2], O(), cons=D(2), maxiter=50)
     add(3, 2, p2, dirs2(2), [0, 2], O(), cons=D(2), maxiter=50)
     add(3, 1, p1[:40], dirs2(1, npas=5), [0], O(goulard=0), maxiter=100)      # ModelOptimVario, nugget only, no Goulard: never returns
+    # 3-D, directional variograms, anisotropy authorised: (a) one horizontal + the vertical direction -> lock_iso2d (range Y = range X),
+    # (b) two horizontal directions, no vertical one -> lock_no3d (range Z = range X), (c) all three: nothing locked
+    p3 = []
+    seen3 = set()
+    while len(p3) < 70:
+        x = tuple(Fraction(rng.randint(0, 24), 4) for _ in range(3))
+        if x in seen3: continue
+        seen3.add(x)
+        z = math.sin(float(x[0]) / 2) + 0.6 * math.cos(float(x[1])) + 0.8 * math.sin(2 * float(x[2])) + 0.2 * rng.gauss(0, 1)
+        p3.append([[D(v) for v in x], [D(Fraction(round(z * 64), 64))]])
+    d3 = lambda cds: [[[D(float(t)) for t in cd], 4, D(1.0), D(45.0)] for cd in cds]
+    for cds in ([(1, 0, 0), (0, 0, 1)], [(1, 0, 0), (0, 1, 0)], [(1, 0, 0), (0, 1, 0), (0, 0, 1)]):
+        for types_ in ([0, 2], [1, 3]):
+            out.append([10, 0, 3, 1, p3, d3(cds), [], types_, O(), [100, 2], [], [], 1, 0])
     # degenerate but not constant data (known findings: the fitted model is PSD, yet kriging with it is singular)
     #  - second variable equal to 0 everywhere except at one far sample: its variogram is 0 at every valid lag -> zero sills
     pz = [[xy, [z[0], D(0)]] for xy, z in p2[:40]] + [[[D(100), D(100)], [D(1), D(5)]]]
@@ -1101,14 +1258,14 @@ def run(ctx):
     runner = build_runner(ctx); exe = build_c17_harness(ctx, ctx.hook)
     if runner is None or exe is None:
         print('ERROR: model runner or harness does not build'); sys.exit(3)
-    for name, fn in [('trunc', stage_trunc), ('params', stage_params), ('foxleg', stage_foxleg), ('ranges', stage_ranges), ('goulard', stage_goulard), ('fit', stage_fit)]:
+    for name, fn in [('trunc', stage_trunc), ('params', stage_params), ('foxleg', stage_foxleg), ('map', stage_map), ('alpha', stage_alpha), ('goulard', stage_goulard), ('fit', stage_fit)]:
         t = time.time(); fn(ctx, exe, runner, quick); ctx.log('%s: %.1fs, %d evaluations so far' % (name, time.time() - t, ctx.cov['evaluations']))
     ctx.cov['disagreements'] = ctx.ndis
     ctx.level = 'proof of the projection / clamping steps, sampled post-conditions elsewhere'
     ctx.cov['rule'] = ('cases: (a) symmetric matrices (1-4 variables: PSD, rank one, indefinite, slightly negative, correlation-like, zero) x truncation / definite-positive repair '
                        'x class method / static function, eigen-pairs harvested from the library; (b) (dimension, directions, options, basic structures, constraint items, default values) '
-                       '-> effective options, parameter identifiers, default+user bounds, clamp; (c) step boxes, gradient evaluation points, st_check_param; (d) ranges written into the structures; '
-                       '(e) with the hook: complete unconstrained Goulard runs replayed with the recorded eigen-pairs; (f) fits: Model::fit, Model::fitFromVMap, ModelOptimSillsVario::fit, '
+                       '-> effective options, parameter identifiers, default+user bounds, clamp; (c) step boxes, gradient evaluation points, st_check_param; (d) parameter vector -> Model for every parameter type (ranges with locked directions, isotropy, angles, lock_samerot copy, third parameter, sills from AIC parameters), the rules of the theorems evaluated on the library output (impl-vs-spec); (d2) constant-sill diagonal term; '
+                       '(e) with the hook: complete unconstrained Goulard runs replayed with the recorded eigen-pairs, each recorded update checked to be the least-squares minimiser, criterion not above its initial value in runs without truncation; (f) fits: Model::fit, Model::fitFromVMap, ModelOptimSillsVario::fit, '
                        'ModelOptimVario::fit on synthetic data sets (smooth / pure nugget / trend / anisotropic / constant; 1-3 variables, heterotopic; 1-4 directions; emptied lags; 5-120 samples), '
                        '1-3 distinct basic structures, random options, maxiter in {0,1,5,20,50,100,1000}, constraint items, constant sill; every in-situ hook record of those fits. '
                        'distinct = distinct case text; non-trivial = every case except structures not valid in the dimension, near-ties of the Goulard stopping test and of st_define_bounds (tie_excluded)')
